@@ -454,6 +454,11 @@ func judgeC05(ex *execution, e *Expect, out *Verdict) {
 		return
 	}
 	if ex.err != nil {
+		if e.Dropped > 0 {
+			out.Fail = fmt.Sprintf("a conflicting ignore-failure update must be dropped without failing the request, but it failed: %s", errText(ex.err))
+			out.NonTrivial = true
+			return
+		}
 		out.Skip = "request_failed" // C02's business
 		return
 	}
